@@ -74,7 +74,8 @@ theorem enact_noHandles (s : State) (c tag : Nat) (st : Step) (dec : Decision) :
 theorem pollFresh_noHandles (cfg : Cfg) (s : State) (c k tag : Nat) (st : Step) (d : Decision) :
     pollFresh cfg (noHandles s) c k tag st d = noHandles (pollFresh cfg s c k tag st d) := by
   unfold pollFresh
-  rw [checked_noHandles, record_noHandles, enact_noHandles]
+  rw [show mark (noHandles s) c k = noHandles (mark s c k) from rfl, checked_noHandles, record_noHandles,
+    enact_noHandles]
 
 /-- Every operation that can still happen does to the state without handles exactly what it does to
 the state with them: first polls (the decision, the draws consumed, error / sleep / inner call), later
